@@ -8,9 +8,13 @@ import Operon.Model.Atp
     transfer src dst n cur                           -> <ret> | <src store> | <dst store>
     convert id n                                     -> <k> | <store>
     dorm id / wake id / interest id / rst id         -> <ret> | <store>
+    obs id none | nth k exc | state <name> exc | always exc   -> ok     (script of store id's on_state_change observer:
+                                                         raise exception #exc at its k-th call / when called with
+                                                         that state / at every call; calls are counted per script)
     fcheck cur cap debt                              -> the float classifier's verdict (self-check of the Float tie)
 
-    <store> = atp gtp nadh debt consumed regenerated ops failed ntx state -/
+    <store> = atp gtp nadh debt consumed regenerated ops failed ntx state maxAtp maxGtp maxNadh
+    every op line ends with ` | cb [id:state,…]`: the observer calls made during the call, in order -/
 open Operon Operon.Proto Operon.Atp
 
 /-- The IEEE-double computation of `_update_state` (Lean `Float` = C double = Python float for `/`, `*`, `-`
@@ -34,7 +38,39 @@ def showState : MState → String
 
 def showStore (s : Store) : String :=
   joinSp [toString s.atp, toString s.gtp, toString s.nadh, toString s.debt, toString s.consumed,
-    toString s.regenerated, toString s.ops, toString s.failed, toString s.ntx, showState s.state]
+    toString s.regenerated, toString s.ops, toString s.failed, toString s.ntx, showState s.state,
+    toString s.maxAtp, toString s.maxGtp, toString s.maxNadh]
+
+def stateOf : String → Option MState
+  | "normal" => some .normal | "conserving" => some .conserving | "starving" => some .starving
+  | "feasting" => some .feasting | "dormant" => some .dormant | _ => none
+
+/-- a scripted observer (the harness installs the same script on the real store) -/
+inductive Script where
+  | none
+  | nth (k : Nat) (exc : Nat)
+  | onState (st : MState) (exc : Nat)
+  | always (exc : Nat)
+
+/-- what the scripted observer does at its next call, having been called `count` times so far -/
+def Script.obs (sc : Script) (count : Nat) : Obs := fun st =>
+  match sc with
+  | .none => Option.none
+  | .nth k e => if count + 1 = k then some e else Option.none
+  | .onState st0 e => if st = st0 then some e else Option.none
+  | .always e => some e
+
+structure DSt where
+  sys : Sys := []
+  scripts : List (Script × Nat) := []     -- per store: script and number of calls it has seen
+
+def DSt.obs (d : DSt) : Nat → Obs := fun j =>
+  match d.scripts[j]? with
+  | some (sc, c) => sc.obs c
+  | Option.none => Obs.silent
+
+def excName : Nat → String
+  | 0 => "RuntimeError" | 1 => "ValueError" | 2 => "KeyError" | _ => "Exception"
 
 def showAt (sys : Sys) (i : Nat) : String :=
   match sys[i]? with | some s => showStore s | none => "-"
@@ -44,6 +80,7 @@ def showRet : Ret → String
   | .none => "none"
   | .int k => toString k
   | .raised .zeroDivision => "raise:ZeroDivisionError"
+  | .raised (.observer k) => s!"raise:{excName k}"
   | .noSuchStore => "no-such-store"
 
 def showBranch : Branch → String
@@ -112,25 +149,48 @@ def opStores : Op → List Nat
   | .consume i .. | .regenerate i .. | .convert i _ | .dorm i | .wake i | .interest i | .reset i => [i]
   | .transfer i j .. => [i, j]
 
-def stepLine (sys : Sys) (toks : List String) : Sys × String :=
+def stepLine (d : DSt) (toks : List String) : DSt × String :=
+  let sys := d.sys
   match toks with
   | ["new", b, g, n, md, rn, rd] =>
     match nat? b, nat? g, nat? n, nat? md, nat? rn, nat? rd with
     | some b, some g, some n, some md, some rn, some rd =>
-      if rd = 0 then (sys, "bad-op")
-      else (sys ++ [Store.fresh b g n md rn rd], s!"ok {sys.length}")
-    | _, _, _, _, _, _ => (sys, "bad-op")
+      if rd = 0 then (d, "bad-op")
+      else ({ sys := sys ++ [Store.fresh b g n md rn rd], scripts := d.scripts ++ [(.none, 0)] }, s!"ok {sys.length}")
+    | _, _, _, _, _, _ => (d, "bad-op")
+  | "obs" :: i :: rest =>
+    let sc : Option Script :=
+      match rest with
+      | ["none"] => some .none
+      | ["nth", k, e] => (nat? k).bind fun k => (nat? e).map fun e => .nth k e
+      | ["state", st, e] => (stateOf st).bind fun st => (nat? e).map fun e => .onState st e
+      | ["always", e] => (nat? e).map fun e => .always e
+      | _ => Option.none
+    match nat? i, sc with
+    | some i, some sc =>
+      if i < sys.length then ({ d with scripts := d.scripts.set i (sc, 0) }, "ok") else (d, "no-such-store")
+    | _, _ => (d, "bad-op")
   | ["fcheck", cur, cap, debt] =>
     let cap' : Int := natD cap
     let r : Option Quo := if cap' = 0 then none else some ⟨natD cur, cap'⟩
     let p : Option Quo := if natD debt > 0 ∧ cap' ≠ 0 then some ⟨natD debt, cap'⟩ else none
-    (sys, showState (floatCls r p))
+    (d, showState (floatCls r p))
   | _ =>
     match parseOp toks with
-    | none => (sys, "bad-op")
+    | none => (d, "bad-op")
     | some op =>
-      let r := step floatCls sys op
+      let obs := d.obs
+      let r := step floatCls obs sys op
+      -- only an installed observer is called (`if self.on_state_change:`)
+      let calls := (observerCalls floatCls obs sys op).filter fun c =>
+        match d.scripts[c.1]? with | some (.none, _) => false | some _ => true | Option.none => false
+      let scripts := calls.foldl (fun acc c => match acc[c.1]? with
+        | some (sc, n) => acc.set c.1 (sc, n + 1) | Option.none => acc) d.scripts
       let shown := (opStores op).map (showAt r.1)
-      (r.1, joinSp ([showRet r.2] ++ shown.flatMap (fun s => ["|", s])) ++ " ## " ++ tagsOf sys op r.2)
+      let cb := showList (calls.map fun c => s!"{c.1}:{showState c.2}")
+      ({ sys := r.1, scripts := scripts },
+        joinSp ([showRet r.2] ++ shown.flatMap (fun s => ["|", s]) ++ ["|", "cb", cb]) ++ " ## " ++ tagsOf sys op r.2
+          ++ (if calls.isEmpty then "" else " cb:called")
+          ++ (match r.2 with | .raised (.observer _) => " cb:raised" | _ => ""))
 
-def main : IO Unit := runDriver ([] : Sys) stepLine
+def main : IO Unit := runDriver ({} : DSt) stepLine
